@@ -231,7 +231,7 @@ def parse_races(stderr_text):
     return races
 
 
-def run_cases(lines, harness="harness", timeout=7200):
+def run_cases(lines, harness="harness", timeout=7200, race_prop="C09"):
     """lines: JSON strings with op,id,in. Returns list of (case_with_out, verdict)."""
     if not lines:
         return []
@@ -260,7 +260,7 @@ def run_cases(lines, harness="harness", timeout=7200):
         if c.get("id") in races:
             n, rep = races[c["id"]]
             funcs = sorted(set(re.findall(r"github\.com/carapace-sh/carapace[\w./()*]*", rep)))[:8]
-            vv.setdefault("fails", []).append({"prop": "C09", "code": "data_race", "detail": "%d report(s); %s\n%s" % (n, " ".join(funcs), rep[:1500])})
+            vv.setdefault("fails", []).append({"prop": race_prop, "code": "data_race", "detail": "%d report(s); %s\n%s" % (n, " ".join(funcs), rep[:1500])})
         res.append((c, vv))
     if crashed is not None:
         bad = json.loads(lines[crashed["index"]]) if crashed["index"] < len(lines) else {}
@@ -271,7 +271,7 @@ def run_cases(lines, harness="harness", timeout=7200):
         # continue after the crashing case
         rest = lines[crashed["index"] + 1:]
         if rest:
-            res.extend(run_cases(rest, harness, timeout))
+            res.extend(run_cases(rest, harness, timeout, race_prop))
     return res
 
 
